@@ -17,7 +17,15 @@ NESTED_CONFLICT = '''statechart:
     initial: P
     states:
       - name: out
+        transitions:
+          - target: a2
+            event: deep
+          - target: c2
+            event: deep2
       - name: P
+        transitions:
+          - target: out
+            event: quit
         parallel states:
           - name: R1
             initial: Q
@@ -656,7 +664,9 @@ def entries():
     for tgt in ('X', 'b2'):
         out.append(('nested_conflict_%s' % tgt, NESTED_CONFLICT % dict(b1_target=tgt), None,
                     [('exec',), q('e'), ('exec',), ('exec',), ('bits', 4094), q('e'), ('exec',), q('e'), ('exec',), ('bits', 4095),
-                     q('e'), ('exec',), q('back'), ('exec',), q('e'), ('exec',), q('leave'), ('exec',), ('exec',)]))
+                     q('e'), ('exec',), q('back'), ('exec',), q('e'), ('exec',), q('leave'), ('exec',), ('exec',),
+                     # from outside into the depth of nested orthogonal states: two orthogonal states lack regions at once
+                     q('quit'), ('exec',), q('deep'), ('exec',), q('quit'), ('exec',), q('deep2'), ('exec',), ('exec',)]))
     out.append(('equal_internal_external', EQUAL_EVENTS, None,
                 [('exec',), q('tick', delay=5), ('clock', 3), q('go'), ('exec',), ('clock', 3), ('exec',), ('exec',), ('clock', 4),
                  ('exec',), ('exec',), q('tick', delay=5), q('go'), ('exec',), ('clock', 5), ('exec',), ('exec',), ('exec',)]))
